@@ -84,6 +84,14 @@ def qconj(q):
 
 
 # ------------------------------------------------------------------ context
+class _Marked(str):
+    """goal name that remembers how many path assumptions precede it"""
+    def __new__(cls, s, n):
+        o = str.__new__(cls, s)
+        o.nassume = n
+        return o
+
+
 class Ctx:
     symbolic = True
 
@@ -157,6 +165,29 @@ class Ctx:
         if isinstance(cond, BoolT):
             cond = cond.z
         self.goals.append((name, _z(cond), kind))
+
+    def summarize(self, name, arr, fact):
+        """modular cut (havoc + assume): prove `fact(arr)` as a lemma, then replace the elements of the real
+        array in place by fresh symbols about which only `fact` is known.  The defining links
+        fresh == old term are kept aside: they are used for cover models and to double-check refutations."""
+        self.lemma(f"{name}.summary", fact(arr))
+        E.path_assume.pop()                       # the lemma was about the old terms; restate on the fresh ones
+        for idx in _np.ndindex(*arr.shape):
+            old = arr[idx]
+            if not isinstance(old, Term):
+                continue
+            v = z3.Real(f"{name}{''.join('_%d' % i for i in idx)}")
+            E.links.append(v == old.z)
+            arr[idx] = Term(v)
+        E.path_assume.append(_z(fact(arr)))
+        return arr
+
+    def lemma(self, name, cond):
+        """ghost lemma: an obligation like any other; once stated it is a hypothesis for the goals that
+        follow it on this path (it is proved from what precedes it, never from itself)"""
+        cond = _z(cond.z if isinstance(cond, BoolT) else cond)
+        self.goals.append((_Marked(f"lemma:{name}", len(E.path_assume)), cond, 'lemma'))
+        E.path_assume.append(cond)
 
     def goal_eq(self, name, A, B, kind='post'):
         """component-wise equality of two scalars/arrays (shapes must agree: that is itself a goal)"""
@@ -236,29 +267,45 @@ class Ctx:
 
 
 # ------------------------------------------------------------------ proving
-def prove(hyps, goal, timeout_ms):
-    """try the back ends in order; returns dict(verdict, by, secs, model)"""
+def prove(hyps, goal, timeout_ms, safety_hyps=()):
+    """try the back ends in order; returns dict(verdict, by, secs, model)
+    1. z3 (short budget)  2. ideal-membership certificate checked by z3 (equality goals)
+    3. z3 (full budget)   4. z3 nlsat tactic   5. cvc5"""
+    from . import cas
     neg = z3.Not(goal)
     total = 0.0
-    v, m, t = core.z3_check(hyps, neg, timeout_ms)
+    quick = min(1500, timeout_ms)
+    v, m, t = core.z3_check(hyps, neg, quick)
     total += t
     if v == 'unsat':
         return dict(verdict='proved', by='z3', secs=total)
     if v == 'sat':
         return dict(verdict='refuted', by='z3', secs=total, model=m)
-    v, m, t = core.z3_check(hyps, neg, timeout_ms, tactic='qfnra-nlsat')
+    t0 = time.time()
+    ok, info = cas.cert_prove(list(hyps) + list(safety_hyps), goal, budget_s=min(30.0, timeout_ms / 1000.0))
+    total += time.time() - t0
+    if ok:
+        return dict(verdict='proved', by='cert+z3', secs=total)
+    if timeout_ms > quick:
+        v, m, t = core.z3_check(hyps, neg, timeout_ms)
+        total += t
+        if v == 'unsat':
+            return dict(verdict='proved', by='z3', secs=total)
+        if v == 'sat':
+            return dict(verdict='refuted', by='z3', secs=total, model=m)
+    v, m, t = core.z3_check(hyps, neg, timeout_ms / 2, tactic='qfnra-nlsat')
     total += t
     if v == 'unsat':
         return dict(verdict='proved', by='z3-nlsat', secs=total)
     if v == 'sat':
         return dict(verdict='refuted', by='z3-nlsat', secs=total, model=m)
-    v, m, t = core.cvc5_check(hyps, neg, timeout_ms)
+    v, m, t = core.cvc5_check(hyps, neg, timeout_ms / 2)
     total += t
     if v == 'unsat':
         return dict(verdict='proved', by='cvc5', secs=total)
     if v == 'sat':
         return dict(verdict='refuted', by='cvc5', secs=total, model=None)
-    return dict(verdict='undecided', by='-', secs=total)
+    return dict(verdict='undecided', by='-', secs=total, cert=str(info)[:100])
 
 
 def model_inputs(m, ctx):
@@ -343,6 +390,8 @@ def run_unit(unit, tier='quick'):
 
     for pi, p in enumerate(paths):
         hyps = list(p.assume) + list(p.pc) + list(p.defs) + list(p.extra)
+        links = list(p.links)
+        safety_hyps = [cond for (kind, cond, site) in p.oblig]
         res['axioms'] = sorted(set(res['axioms']) | p.axioms)
         for ef in p.effects:
             if list(ef) not in res['effects']:
@@ -351,7 +400,7 @@ def run_unit(unit, tier='quick'):
             if n not in res['notes']:
                 res['notes'].append(n)
         # cover: the path's hypotheses must be satisfiable (vacuity guard + cross-check input)
-        v, m, t = core.z3_check(hyps, z3.BoolVal(True), 10000)
+        v, m, t = core.z3_check(hyps + links, z3.BoolVal(True), 10000)
         cover = dict(path=pi, taken=''.join('T' if b else 'F' for b in p.taken), verdict=v)
         if v == 'unsat':
             cover['dropped'] = True
@@ -381,7 +430,16 @@ def run_unit(unit, tier='quick'):
             if kind == 'engine':
                 o['undecided'] += 1; res['status'] = 'engine-error'
                 continue
-            r = prove(hyps, g, timeout_ms)
+            hy = hyps
+            if isinstance(name, _Marked):
+                hy = list(p.assume[:name.nassume]) + list(p.pc) + list(p.defs) + list(p.extra)
+            sh = safety_hyps if kind != 'safety' else ()
+            r = prove(hy, g, timeout_ms, sh)
+            if r['verdict'] != 'proved' and links:
+                # generalised query failed: retry with the definitions behind the summaries revealed
+                r2 = prove(hy + links, g, timeout_ms, sh)
+                r2['secs'] += r['secs']
+                r = r2
             o['secs'] += r['secs']; res['solver_s'] += r['secs']
             if r['verdict'] == 'proved':
                 o['proved'] += 1; o['by'][r['by']] = o['by'].get(r['by'], 0) + 1
